@@ -42,15 +42,22 @@
        gives for duplicate-free labels)
                  [C09_x86_share_block, C09_x86_erase_block, C09_x86_release_block, C09_x86_acquire_block_reg/_spill, C09_x86_image]
 
+     * ROUND 2 - programs: the linear machine instrumented with the abstract heap (Sem/AxHeap.v) observes what
+       exec_linear observes; for every linearity-checked program every reachable configuration satisfies InvA with
+       roots = the pointers of the environment = the non-ext variables of the statement's typing context, every value
+       is represented at its pointer, chains are owned (the former precondition obj_ok / links_ok is now an invariant),
+       and every emitted operation meets its precondition: the operation trace of every run satisfies pre_trace, so
+       all trace theorems are theorems about programs       [C09_program_heap_safe, C09_program_step_safe, C09_program_*]
+     * ROUND 2 - x86-64: the emitted code of store (let / create) and load (switch / invoke), any number of fields,
+       registers and spill slots, both load modes, refines alloc_object / load_object   [C09_x86_store*, C09_x86_load*]
+
    NOT YET PROVED (visible as missing theorems)
-     * the lifting from operation traces to AxCut programs (each statement's code is a sequence of
-       these operations with R = the pointers of the environment, and the preconditions - in
-       particular `obj_ok`: continuation blocks of an object have header 0 and no other referrer -
-       follow from typing).  That link is checked by executing the implementation's code with the
-       invariant evaluated at every statement boundary, see the evidence;
-     * refinement of store and load (store_values / store_fields / load_fields, which depend on
-       typing contexts) to the x86-64 code: checked operation by operation against Model/Heap.step
-       by the heapops-x86 correspondence step; and anything about the AArch64 / RISC-V code;
+     * that the emitted code of a whole statement is the operation sequence the instrumented machine lists
+       (simulation of code_statement; the hypotheses of the per-operation refinement theorems are not yet derived
+       from InvA + rep, and the composition with the parallel moves of C11 is not done).  That link is checked on every
+       run by the step heaplock-x86: the real x86-64 code in lockstep with the instrumented machine, registers,
+       variable pointers and every block below the frontier compared at every statement boundary;
+     * anything about the AArch64 / RISC-V code (the abstract machine and the program theorems are back-end independent);
      * "touches no memory outside heap, spill area and pushes": faults of the ISA model in the
        executed runs, not a theorem. *)
 From Coq Require Import List ZArith NArith Permutation FMapPositive.
